@@ -8,6 +8,7 @@ import (
 	"fmt"
 
 	"github.com/khirono/go-nl"
+	"github.com/wmnsk/go-pfcp/ie"
 
 	"github.com/free5gc/go-gtp5gnl"
 	"github.com/free5gc/go-upf/internal/forwarder"
@@ -176,6 +177,80 @@ func init() {
 		out := make([]fdResult, len(cases))
 		for i, c := range cases {
 			out[i] = fdOne(c)
+		}
+		return out, nil
+	}
+	// newPdi: a PDI whose IEs stand in the given order; items ["sdf", hex of the flow description] | ["srcif", v] |
+	// ["other"].  Output: the PDI_SRC_INTF values and, per PDI_SDF_FILTER attribute in order, its flow-description
+	// attribute list, next to what newFlowDesc gives for the same string with and without the exchange.
+	modes["pdi"] = func(in json.RawMessage) (interface{}, error) {
+		var cases [][][]interface{}
+		if err := json.Unmarshal(in, &cases); err != nil {
+			return nil, err
+		}
+		type pdiOut struct {
+			Res    string            `json:"res"`
+			SrcIfs []int             `json:"srcifs"`
+			Sdfs   [][][]interface{} `json:"sdfs"`
+			Swap   [][][]interface{} `json:"swap"`   // newFlowDesc(s, true) per sdf item of the case
+			NoSwap [][][]interface{} `json:"noswap"` // newFlowDesc(s, false)
+		}
+		out := make([]pdiOut, len(cases))
+		for ci, c := range cases {
+			func() {
+				o := &out[ci]
+				defer func() {
+					if p := recover(); p != nil {
+						o.Res = fmt.Sprintf("panic:%v", p)
+					}
+				}()
+				var ies []*ie.IE
+				for _, it := range c {
+					switch it[0].(string) {
+					case "sdf":
+						raw, _ := hex.DecodeString(it[1].(string))
+						ies = append(ies, ie.NewSDFFilter(string(raw), "", "", "", 0))
+						var r fdResult
+						for _, sw := range []bool{true, false} {
+							fdAttrs(string(raw), sw, &r)
+							if sw {
+								o.Swap = append(o.Swap, r.List)
+							} else {
+								o.NoSwap = append(o.NoSwap, r.List)
+							}
+						}
+					case "srcif":
+						ies = append(ies, ie.NewSourceInterface(uint8(it[1].(float64))))
+					default:
+						ies = append(ies, ie.NewNetworkInstance("internet"))
+					}
+				}
+				al, err := forwarder.VerifNewPdi(ie.NewPDI(ies...))
+				if err != nil {
+					o.Res = "err"
+					return
+				}
+				for _, a := range al {
+					switch int(a.Type) {
+					case gtp5gnl.PDI_SRC_INTF:
+						if v, ok := a.Value.(nl.AttrU8); ok {
+							o.SrcIfs = append(o.SrcIfs, int(v))
+						}
+					case gtp5gnl.PDI_SDF_FILTER:
+						sub, _ := a.Value.(nl.AttrList)
+						var fd [][]interface{}
+						for _, b := range sub {
+							if int(b.Type) == gtp5gnl.SDF_FILTER_FLOW_DESCRIPTION {
+								if l, ok := b.Value.(nl.AttrList); ok {
+									fd, _ = renderAttrs(l)
+								}
+							}
+						}
+						o.Sdfs = append(o.Sdfs, fd)
+					}
+				}
+				o.Res = "ok"
+			}()
 		}
 		return out, nil
 	}
